@@ -18,11 +18,12 @@ import vf
 SPECDIR = os.path.join(vf.SPEC, "http")
 TRACE_TLA = os.path.join(SPECDIR, "HttpRetryTrace.tla")
 TRACE_CFG = os.path.join(SPECDIR, "HttpRetryTrace.cfg")
-IMPL_INVS = ["AtMostOnce", "AttemptBound", "FramingNotRetried", "NoReuse", "LeaseExclusive", "NoStuck"]
+IMPL_INVS = ["AtMostOnce", "AttemptBound", "FramingNotRetried", "NoReuse", "OwnResponse", "LeaseExclusive", "NoStuck"]
 DEVS = {"Dev_RetryNonIdempotent": "AtMostOnce", "Dev_RetryFraming": "FramingNotRetried",
         "Dev_KeepAfterCloseSignal": "NoReuse", "Dev_KeepAfterSurplus": "NoReuse", "Dev_KeepAfterFailure": "NoReuse",
         "Dev_BudgetOffByOne": "AttemptBound", "Dev_PossiblySentIsNotSent": "AtMostOnce",
-        "Dev_CaseFoldMethod": "AtMostOnce", "Dev_NoRecvTimeout": "NoStuck"}
+        "Dev_CaseFoldMethod": "AtMostOnce", "Dev_NoRecvTimeout": "NoStuck", "Dev_ClampedBodyRead": "NoReuse",
+        "Dev_IdleBytesKept": "OwnResponse"}
 ACTIONS = ["Start", "AcquireLease", "Reuse", "EvictIdle", "Miss", "ConnectFails", "ConnectResetEarly", "ConnectOk",
            "SetSyncMode", "SendStale", "PickCached", "Send", "RecvFails", "RecvOk", "RetryDecision", "Finish"]
 RT = 400          # requestTimeout of the client under test (ms); connectTimeout 200
@@ -33,7 +34,13 @@ def S(k, v="-", p="-"):
 
 
 OK = S("ok", "cl")
-SUCCESS = [OK, S("ok", "chunked"), S("ok_connclose"), S("ok_connclose", "mixed"), S("ok_connclose", "list"), S("ok_surplus", "cl"), S("ok_surplus", "chunked"), S("ok_surplus", "204"), S("ok_closedelim"),
+SUCCESS = [OK, S("ok", "chunked"), S("ok_connclose"), S("ok_connclose", "mixed"), S("ok_connclose", "list"), S("ok_surplus", "cl"), S("ok_surplus", "chunked"), S("ok_surplus", "204"),
+           # surplus at the other arrival points: after the header block was read (headers | body+surplus; headers+part of
+           # the body | rest+surplus | surplus), in a segment of its own after the complete response, while the connection
+           # sits in the cache (a complete foreign response / junk)
+           S("ok_surplus", "cl", "h_bs"), S("ok_surplus", "cl", "hb_bs_s"), S("ok_surplus", "chunked", "h_bs"),
+           S("ok_surplus", "chunked", "hb_bs_s"), S("ok_latesurplus", "cl", "h_b_s"), S("ok_latesurplus", "chunked", "h_b_s"),
+           S("ok_latesurplus", "204", "h_s"), S("ok_idle", "stale"), S("ok_idle", "junk"), S("ok_closedelim"),
            S("ok_http10"), S("ok_http10_ka"), S("ok_then_fin"), S("ok_1xx"), S("ok_500"), S("ok_204"),
            S("ok_split", "cl", "body"), S("send_short", "-", "first"), S("send_eagain")]
 REQPOS = ["peek", "first", "line", "hdr", "last"]
@@ -47,11 +54,13 @@ FAULTS = ([S("refused"), S("ctimeout"), S("acc_close"), S("acc_rst")] +
           [S("resp_close", "cl", p) for p in RESPPOS] + [S("resp_close", "chunked", p) for p in ["hdrend", "body", "last"]] +
           [S("resp_rst", "cl", p) for p in RESPPOS] + [S("resp_rst", "chunked", "body")] +
           [S("bad", v) for v in BAD])
-SEQ2 = [OK, S("ok", "chunked"), S("ok_connclose"), S("ok_surplus", "cl"), S("ok_closedelim"), S("ok_http10"),
+SEQ2 = [OK, S("ok", "chunked"), S("ok_connclose"), S("ok_surplus", "cl"), S("ok_surplus", "cl", "h_bs"), S("ok_idle", "stale"),
+        S("ok_latesurplus", "cl", "h_b_s"), S("ok_closedelim"), S("ok_http10"),
         S("ok_http10_ka"), S("ok_then_fin"), S("ok_1xx"), S("ok_500"), S("ok_204"),
         S("refused"), S("acc_rst"), S("req_close", "-", "first"), S("full_close"), S("silence"),
         S("resp_close", "cl", "body"), S("resp_silence", "cl", "hdr"), S("bad", "cl_te"), S("bad", "chunk_size")]
-SEQ3 = [OK, S("ok_connclose"), S("ok_surplus", "cl"), S("ok_closedelim"), S("ok_http10"), S("ok_then_fin"),
+SEQ3 = [OK, S("ok_connclose"), S("ok_surplus", "cl"), S("ok_surplus", "cl", "hb_bs_s"), S("ok_idle", "stale"), S("ok_closedelim"),
+        S("ok_http10"), S("ok_then_fin"),
         S("refused"), S("silence"), S("resp_close", "cl", "body"), S("bad", "cl_te")]
 NOREUSE = [OK, S("ok_connclose"), S("ok_surplus", "cl"), S("silence"), S("full_close"), S("refused")]
 IDLE = [OK, S("ok_then_fin"), S("ok_connclose")]
@@ -267,6 +276,16 @@ def judge(ck, name, lines, preds, execs, rerun=True):
     for i, (st, evs) in enumerate(execs):
         if any(e["e"] == "SLate" for e in evs):
             late += 1
+        # observation (weaker reading, never a verdict): a connection that received surplus in a segment of its own after
+        # the complete response, or while idle, and carried a later request all the same
+        weak = set()
+        for e in evs:
+            if e["e"] in ("SLateSurplus", "SIdle"):
+                weak.add(e["c"])
+            elif e["e"] == "SReq" and e["c"] in weak:
+                ck.weak_reused += 1
+                weak.discard(e["c"])
+        ck.weak_n += 1 if any(e["e"] in ("SLateSurplus", "SIdle") for e in evs) else 0
         kinds = set(e["e"] for e in evs)
         nontriv = "STaint" in kinds or any(e["e"] == "Ret" and e["res"] != "ok" for e in evs) or \
             sum(1 for e in evs if e["e"] == "CConn") > sum(1 for e in evs if e["e"] == "Call") or \
@@ -275,8 +294,9 @@ def judge(ck, name, lines, preds, execs, rerun=True):
             ck.nt.add(lines[i])
         # the model resolves two races nondeterministically (close/RST at accept seen by connect() or by the exchange; which of
         # two concurrent callers gets the lease first): the continuation of such a script depends on the branch taken, so
-        # its prediction is not compared
-        if preds is not None and preds[i] is not None and "acc_" not in lines[i] and "conc=1" not in lines[i]:
+        # its prediction is not compared; the same holds for surplus in a segment of its own (seen by the client or not)
+        if preds is not None and preds[i] is not None and "acc_" not in lines[i] and "conc=1" not in lines[i] \
+                and "ok_latesurplus" not in lines[i]:
             ob = observed(evs)
             if ob not in preds[i]:
                 drift += 1
@@ -343,10 +363,11 @@ def selftest_trace_spec(ck):
     def cc(c, r, mode="ok"): return {"e": "CConn", "c": c, "r": r, "mode": mode}
     def sr(c, r, n=100, full=True): return {"e": "SReq", "c": c, "r": r, "n": n, "full": full}
     def ta(c, why, r): return {"e": "STaint", "c": c, "why": why, "r": r}
-    def ret(r, res="ok", ms=10): return {"e": "Ret", "r": r, "res": res, "st": 200, "ms": ms}
+    def ret(r, res="ok", ms=10, rt=None): return {"e": "Ret", "r": r, "res": res, "st": 200, "ms": ms, "rt": r if rt is None else rt}
     tests = [
-        ("good", None, [B, call(1, "POST", 2), cc(1, 1, "refused"), cc(2, 1), sr(2, 1), ret(1), call(2, "GET", 1), sr(2, 2),
-                        ta(2, "failure", 2), cc(3, 2), sr(3, 2), ret(2), E]),
+        ("good", None, [B, call(1, "POST", 2), cc(1, 1, "refused"), cc(2, 1), sr(2, 1), ret(1), {"e": "SLateSurplus", "c": 2, "r": 1},
+                        {"e": "SIdle", "c": 2}, call(2, "GET", 1), sr(2, 2), ta(2, "failure", 2), cc(3, 2), sr(3, 2), ret(2),
+                        call(3, "GET", 0), sr(3, 3), ret(3, "framing", rt=0), E]),
         ("post twice on the wire", "AtMostOnce", [B, call(1, "POST", 2), cc(1, 1), sr(1, 1, 1, False), cc(2, 1), sr(2, 1), ret(1), E]),
         ("PATCH resent on a kept-alive connection", "AtMostOnce", [B, call(1, "GET", 0), cc(1, 1), sr(1, 1), ret(1),
                                                                     call(2, "PATCH", 1), sr(1, 2), cc(2, 2), sr(2, 2), ret(2), E]),
@@ -358,6 +379,10 @@ def selftest_trace_spec(ck):
                                                  call(2, "GET", 0), sr(1, 2), ret(2), E]),
         ("reuse after surplus", "NoReuse", [B, call(1, "GET", 0), cc(1, 1), sr(1, 1), ta(1, "surplus", 1), ret(1),
                                             call(2, "POST", 0), sr(1, 2, 5, False), ret(2), E]),
+        ("idle bytes taken as the response to the next request", "OwnResponse",
+         [B, call(1, "GET", 0), cc(1, 1), sr(1, 1), ret(1), {"e": "SIdle", "c": 1}, call(2, "POST", 0), sr(1, 2), ret(2, rt=99), E]),
+        ("surplus after the header block, connection reused", "NoReuse",
+         [B, call(1, "GET", 0), cc(1, 1), sr(1, 1), ta(1, "surplus", 1), ret(1), call(2, "GET", 0), sr(1, 2), ret(2), E]),
         ("waits longer than its timeouts", "TimeBound", [B, call(1, "GET", 0), cc(1, 1), sr(1, 1), ret(1, "hung", 13000), E]),
     ]
     def go(job):
@@ -385,7 +410,8 @@ def selftest_devs(ck):
     """every deviation flag must make TLC report the invariant that states the broken clause (no vacuous invariants)"""
     base = dict(name="dev", callers=[1], nreq=2, methods=["GET", "POST", "get"], budgets=[0, 1, 2], oktail=[OK], maxfk=1,
                 reuse=True, idle=False,
-                steps=[OK, S("ok_connclose"), S("ok_surplus", "cl"), S("ok_then_fin"), S("refused"), S("acc_rst"),
+                steps=[OK, S("ok_connclose"), S("ok_surplus", "cl"), S("ok_surplus", "cl", "h_bs"), S("ok_idle", "stale"),
+                       S("ok_then_fin"), S("refused"), S("acc_rst"),
                        S("send_fail", "-", "zero"), S("req_close", "-", "first"), S("full_close"), S("silence"), S("bad", "cl_te")])
 
     def go(dv):
@@ -469,7 +495,7 @@ def sweep_config(m, reqlen, resplen):
 
 def run(ck):
     thorough = ck.tier == "thorough"
-    ck.nt, ck.drift, ck.flaky = set(), 0, 0
+    ck.nt, ck.drift, ck.flaky, ck.weak_reused, ck.weak_n = set(), 0, 0, 0, 0
     ck.make("drv_httpretry")
     ck.rule = ("cases = terminal states of the TLC runs of HttpRetry.tla (every method x budget 0..2 x fault kind x position "
                "class for one request; sampled / all sequences of 2-3 requests, idle expiry, reuseConnections=false, two "
@@ -519,6 +545,9 @@ def run(ck):
             judge(ck, name, keys, preds, execs)
         ck.note("byte-offset sweep: request lengths %s, response lengths %s, %d cases" % (
             {m: reqlen[m] for m in ("GET", "POST")}, resplen, sum(len(k) for n_, k, p_, t_ in sweeps)))
+    ck.note("observation (weaker reading, no verdict): in %d of %d executions with surplus in a segment of its own after the "
+            "complete response / while the connection was idle, that connection carried a later request (answered by its own "
+            "response, OwnResponse holds)" % (ck.weak_reused, ck.weak_n))
     if ck.drift:
         ck.note("model drift total: %d executions differ from the Impl prediction but are accepted by the Abs oracle" % ck.drift)
     if ck.flaky > 5:
@@ -527,7 +556,7 @@ def run(ck):
 
 def replay(ck, path):
     """re-run one saved case against the current tree and re-validate it"""
-    ck.nt, ck.drift, ck.flaky = set(), 0, 0
+    ck.nt, ck.drift, ck.flaky, ck.weak_reused, ck.weak_n = set(), 0, 0, 0, 0
     ck.make("drv_httpretry")
     line = open(os.path.join(path, "case.txt")).read().strip()
     execs, p = run_cases(ck, "replay", [line], par=1)
